@@ -4,6 +4,9 @@ import os
 # hdr = header bytes, rec = bytes per op record (used by the shrinker)
 HARNESS = {
     'slist': dict(src=['h_slist.cpp'], hdr=5, rec=3),
+    'tree': dict(src=['h_tree.cpp'], hdr=5, rec=3),
+    'heap': dict(src=['h_heap.cpp'], hdr=4, rec=3),
+    'map': dict(src=['h_map.cpp'], hdr=5, rec=3),
 }
 
 def g2_jobs(harness, cases_per_worker, workers=16, variant='asan', tagx=''):
@@ -12,7 +15,8 @@ def g2_jobs(harness, cases_per_worker, workers=16, variant='asan', tagx=''):
         n = max(1, int(cases_per_worker * ctx['budget']))
         jobs = []
         for w in range(workers):
-            wid = w + (1000 if variant != 'asan' else 0) + (abs(hash(tagx)) % 97) * 10000 * bool(tagx)
+            wid = ctx.get('next_wid', 0)      # unique per run: names the cur-/stats- files and keys the PRNG stream
+            ctx['next_wid'] = wid + 1
             jobs.append(Job('g2-%s-%s%s-%d' % (harness, variant, tagx, w),
                             [exe, '--prop', ctx['prop']] + HARNESS[harness].get('replay_args', []) +
                             ['g2', str(ctx['seed']), str(wid), str(n), ctx['outdir']],
@@ -31,6 +35,22 @@ def g1_jobs(harness, scopes, cap, variant='asan'):
                             [exe, '--prop', ctx['prop']] + HARNESS[harness].get('replay_args', []) +
                             ['g1', sc, str(cap), ctx['outdir'], tag],
                             ctx['outdir'], cur=os.path.join(ctx['outdir'], 'cur-g1-%s.case' % tag),
+                            harness=harness, exe=exe, prop=ctx['prop']))
+        return jobs
+    return mk
+
+def g7_jobs(harness, scripts_per_worker, workers=16, pair_max=12, variant='asan'):
+    def mk(ctx, Job):
+        exe = ctx['exes'][(harness, variant)]
+        n = max(1, int(scripts_per_worker * ctx['budget']))
+        jobs = []
+        for w in range(workers):
+            wid = ctx.get('next_wid', 0)
+            ctx['next_wid'] = wid + 1
+            jobs.append(Job('g7-%s-%s-%d' % (harness, variant, w),
+                            [exe, '--prop', ctx['prop']] + HARNESS[harness].get('replay_args', []) +
+                            ['g7', str(ctx['seed']), str(wid), str(n), ctx['outdir'], str(pair_max)],
+                            ctx['outdir'], cur=os.path.join(ctx['outdir'], 'cur-g7-%d.case' % wid),
                             harness=harness, exe=exe, prop=ctx['prop']))
         return jobs
     return mk
@@ -107,6 +127,74 @@ def plan(prop, tier, seed, budget):
                  'audited (size, front, back, full traversal) after every op. Non-trivial: the history contains a '
                  'push_back immediately after one of {erase of the last element, reverse, sort, concat, swap, pop to '
                  'empty} (followed by the audit) and has >= 3 ops. Distinct = distinct case byte strings (FNV-64).',
+            assumptions=COMMON_ASSUME,
+        )
+    elif prop == 'C01':
+        sc = ['%d:8:%d:3' % (k, c) for k in (1, 2) for c in range(4)] if q else \
+             ['%d:8:%d:3' % (k, c) for k in (1, 2) for c in range(4)] + ['1:9:0:4', '2:9:0:4', '1:8:0:6', '2:8:0:6', '1:8:0:3:seq5']
+        P = dict(
+            level='exploration',
+            builds=[('tree', 'asan')] + ([] if q else [('tree', 'rel'), ('tree', 'fuzz')]),
+            jobs=[g1_jobs('tree', sc, 200000 if q else 3000000), g2_jobs('tree', 12000 if q else 120000)] +
+                 ([] if q else [g2_jobs('tree', 12000, variant='rel'), g3_jobs('tree', 300000)]),
+            py=[] if q else [g3_stats('tree')],
+            rule='case = byte-coded history driving a cstl_bintree and a cstl_rbtree with the same operations (insert, '
+                 'hinted insert via find, find, erase, walk with stop, clear, height) over key universes of 1..1000 keys and '
+                 'four comparison functions; oracle = reference multiset per comparison class with pointer identity against '
+                 'the element pool, size after every op, full audit (both walks with PRE/MID/POST/LEAF bracket check and '
+                 'order, find of every key) after every op in short histories / G1 and every 8th op otherwise. '
+                 'Non-trivial: >= 1 insert of a key already held, >= 1 erase of a node with two children, >= 1 audit walk '
+                 'over >= 3 elements. Distinct = distinct case byte strings (FNV-64).',
+            assumptions=COMMON_ASSUME,
+        )
+    elif prop == 'C02':
+        sc = ['2:8:0:3', '2:2:0:5', '2:8:1:3'] if q else ['2:8:0:7', '2:3:0:5', '2:9:0:5', '2:8:3:6', '2:2:0:7']
+        P = dict(
+            level='exploration',
+            builds=[('tree', 'asan')] + ([] if q else [('tree', 'rel'), ('tree', 'fuzz')]),
+            jobs=[g1_jobs('tree', sc, 200000 if q else 3000000), g2_jobs('tree', 15000 if q else 150000)] +
+                 ([] if q else [g2_jobs('tree', 15000, variant='rel'), g3_jobs('tree', 300000)]),
+            py=[] if q else [g3_stats('tree')],
+            rule='case = byte-coded insert / hinted insert / erase history on a cstl_rbtree (heavy key duplication); oracle = '
+                 'walk over the public node fields after every insert and erase: root black with NULL parent, no red node '
+                 'with a red child, equal black count on every root-to-NULL path, child->parent back links, node count == '
+                 'size, and 2^h <= (n+1)^2 for h = cstl_rbtree_height max and for the measured longest path. G1 = closure '
+                 'over every reachable shape+colouring in the scope. Non-trivial: >= 1 erase whose spliced-out node was '
+                 'black in a tree of >= 4 nodes and >= 1 insert under a red would-be parent. Distinct = distinct case bytes.',
+            assumptions=COMMON_ASSUME + ['the colour and link fields read by the oracle are the public struct members of rbtree.h'],
+        )
+    elif prop == 'C07':
+        P = dict(
+            level='exploration',
+            builds=[('heap', 'asan')] + ([] if q else [('heap', 'rel'), ('heap', 'fuzz')]),
+            jobs=[g1_jobs('heap', ['2:0:4', '2:1:4', '2:2:3', '1:0:5', '2:0:0:seq6'] if q else
+                          ['2:0:6', '2:1:6', '3:0:5', '1:0:6', '2:0:0:seq9', '3:2:0:seq7'], 200000 if q else 3000000),
+                  g2_jobs('heap', 60000 if q else 600000)] +
+                 ([] if q else [g2_jobs('heap', 60000, variant='rel'), g3_jobs('heap', 400000)]),
+            py=[] if q else [g3_stats('heap')],
+            rule='case = byte-coded push/pop/get/clear history with priorities from 1..1000 values (ties by design) and three '
+                 'comparison functions; oracle = reference multiset with pointer identity: get/pop return a held element '
+                 'comparing >= every held element, pop removes exactly it, NULL iff empty, size; plus a walk over the public '
+                 'links: occupied positions are exactly 1..n (complete, left-filled), parent >= child, back links. '
+                 'Non-trivial: >= 1 push after a pop and >= 1 pop from a heap of >= 4 elements with a tie at the top. '
+                 'Distinct = distinct case bytes.',
+            assumptions=COMMON_ASSUME,
+        )
+    elif prop == 'C08':
+        P = dict(
+            level='exploration',
+            builds=[('map', 'asan')] + ([] if q else [('map', 'rel'), ('map', 'fuzz')]),
+            jobs=[g1_jobs('map', ['3:0:0:seq4', '4:0:5', '4:1:5', '3:2:3'] if q else
+                          ['3:0:0:seq5', '4:0:7', '4:1:7', '4:2:5', '3:1:0:seq4'], 200000 if q else 3000000),
+                  g2_jobs('map', 60000 if q else 600000)] +
+                 ([] if q else [g2_jobs('map', 60000, variant='rel'), g3_jobs('map', 400000)]),
+            py=[] if q else [g3_stats('map')],
+            rule='case = byte-coded history of insert (with/without iterator), find, erase by key (with/without iterator), '
+                 'erase by iterator, clear (callback / NULL) on a cstl_map whose keys are pointers to harness cells (several '
+                 'cells per value, three comparison functions incl. modulo classes); oracle = reference map class -> stored '
+                 '(key pointer, value pointer): return codes 0/1/-1, iterator contents, end iterators, size, and allocation '
+                 'accounting (one node per entry, none after clear). Non-trivial: >= 1 re-insert of an existing key with '
+                 'another cell, >= 1 successful erase, and a non-ascending insertion order. Distinct = distinct case bytes.',
             assumptions=COMMON_ASSUME,
         )
     else:
